@@ -338,4 +338,112 @@ example : validateOne (10 ^ 20) { now := 1000, maxAge := 60, maxRange := 60, max
     { found := true, adjustment := 1, devFactor := none } 900 7
     ⟨⟨995, 2⟩, ⟨1011, 2⟩⟩ none = .error .maxAge := by rfl
 
+/-! ### audit: further non-vacuity instances (the loop, the batch, the range check) and the batch-level freshness statement -/
+
+/-- `accepted_wellformed` / `rejects_zero_or_inverted` instantiated -/
+example : 0 < (⟨990, 2⟩ : Dec).unit ∧ (⟨990, 2⟩ : Dec).unit ≤ (⟨1010, 2⟩ : Dec).unit ∧ (2 : Nat) = 2 :=
+  accepted_wellformed (p := ⟨⟨990, 2⟩, ⟨1010, 2⟩⟩) (by decide)
+example : fromPriceOk ⟨⟨1010, 2⟩, ⟨990, 2⟩⟩ = false ∧ fromPriceOk ⟨⟨0, 2⟩, ⟨990, 2⟩⟩ = false ∧
+    fromPriceOk ⟨⟨99, 3⟩, ⟨990, 2⟩⟩ = false :=
+  ⟨rejects_zero_or_inverted _ (.inr (.inl (by decide))), rejects_zero_or_inverted _ (.inl rfl),
+   rejects_zero_or_inverted _ (.inr (.inr (by decide)))⟩
+
+/-- `range_ok` hypothesis: `finish` succeeds on a validator that merged two timestamps (spread 5 = max range);
+with max range 4 it is rejected; a validator that merged nothing is rejected as an invalid range -/
+example : finish { now := 1000, maxAge := 60, maxRange := 5, maxFuture := 10, minTs := 989, maxTs := 994, minSlot := some 5 }
+      = .ok (some (5, 989, 994)) ∧
+    finish { now := 1000, maxAge := 60, maxRange := 4, maxFuture := 10, minTs := 989, maxTs := 994, minSlot := some 5 }
+      = .error .range ∧
+    finish { now := 1000, maxAge := 60, maxRange := 4, maxFuture := 10 } = .error .overflow := ⟨by rfl, by rfl, by rfl⟩
+
+/-- `setOne_ok` hypothesis: one accepted token (expected provider, matching feed, fresh, in band, well-formed) -/
+example : (setOne (10 ^ 20) ({}, { now := 1000, maxAge := 60, maxRange := 5, maxFuture := 10 }) { token := 1, enabled := true, expectedProvider := 2, provider := 2, feedMatches := true, allowAdjust := false, cfg := { found := true, adjustment := 1, devFactor := some (10 ^ 18) }, oracleTs := 990, slot := 7, price := ⟨⟨995, 2⟩, ⟨1005, 2⟩⟩, ref := some ⟨1000, 2⟩ }).toOption.map (fun r => (r.1.prices, r.2.minTs, r.2.maxTs, r.2.minSlot)) =
+    some ([(1, ⟨⟨995, 2⟩, ⟨1005, 2⟩⟩)], 989, 989, some 7) := by rfl
+
+/-- `provider_feed_match` instantiated: the same feed from another provider is rejected -/
+example : ∃ e, setOne (10 ^ 20) (({} : Oracle), ({ now := 1000, maxAge := 60, maxRange := 5, maxFuture := 10 } : Validator))
+    ({ ({ token := 1, enabled := true, expectedProvider := 2, provider := 2, feedMatches := true, allowAdjust := false, cfg := { found := true, adjustment := 1, devFactor := some (10 ^ 18) }, oracleTs := 990, slot := 7, price := ⟨⟨995, 2⟩, ⟨1005, 2⟩⟩, ref := some ⟨1000, 2⟩ } : Feed) with provider := 9 }) = .error e :=
+  provider_feed_match (.inr (.inl (by decide)))
+
+/-- `setLoop_range` / `setLoop_wellformed` / `accepted_batch` hypotheses: a batch of TWO tokens (different providers,
+adjustments 1 and 0, one with a deviation check, one without) is accepted with adjusted timestamps 989 and 994 —
+exactly `max_oracle_timestamp_range = 5` apart; with range 4 the same batch is rejected -/
+example : (setLoop (10 ^ 20) ({}, { now := 1000, maxAge := 60, maxRange := 5, maxFuture := 10 }) [{ token := 1, enabled := true, expectedProvider := 2, provider := 2, feedMatches := true, allowAdjust := false, cfg := { found := true, adjustment := 1, devFactor := some (10 ^ 18) }, oracleTs := 990, slot := 7, price := ⟨⟨995, 2⟩, ⟨1005, 2⟩⟩, ref := some ⟨1000, 2⟩ }, { token := 2, enabled := true, expectedProvider := 3, provider := 3, feedMatches := true, allowAdjust := true, cfg := { found := true, adjustment := 0, devFactor := none }, oracleTs := 994, slot := 5, price := ⟨⟨3, 0⟩, ⟨4, 0⟩⟩, ref := none }]).toOption.map (fun r => (r.1.prices.map (·.1), r.2.minTs, r.2.maxTs, r.2.minSlot)) =
+    some ([2, 1], 989, 994, some 5) := by rfl
+example : setPrices (10 ^ 20) {} { now := 1000, maxAge := 60, maxRange := 5, maxFuture := 10 } [{ token := 1, enabled := true, expectedProvider := 2, provider := 2, feedMatches := true, allowAdjust := false, cfg := { found := true, adjustment := 1, devFactor := some (10 ^ 18) }, oracleTs := 990, slot := 7, price := ⟨⟨995, 2⟩, ⟨1005, 2⟩⟩, ref := some ⟨1000, 2⟩ }, { token := 2, enabled := true, expectedProvider := 3, provider := 3, feedMatches := true, allowAdjust := true, cfg := { found := true, adjustment := 0, devFactor := none }, oracleTs := 994, slot := 5, price := ⟨⟨3, 0⟩, ⟨4, 0⟩⟩, ref := none }] =
+    .ok { minTs := 989, maxTs := 994, minSlot := 5, cleared := false,
+          prices := [(2, ⟨⟨3, 0⟩, ⟨4, 0⟩⟩), (1, ⟨⟨995, 2⟩, ⟨1005, 2⟩⟩)] } := by rfl
+example : setPrices (10 ^ 20) {} { now := 1000, maxAge := 60, maxRange := 4, maxFuture := 10 } [{ token := 1, enabled := true, expectedProvider := 2, provider := 2, feedMatches := true, allowAdjust := false, cfg := { found := true, adjustment := 1, devFactor := some (10 ^ 18) }, oracleTs := 990, slot := 7, price := ⟨⟨995, 2⟩, ⟨1005, 2⟩⟩, ref := some ⟨1000, 2⟩ }, { token := 2, enabled := true, expectedProvider := 3, provider := 3, feedMatches := true, allowAdjust := true, cfg := { found := true, adjustment := 0, devFactor := none }, oracleTs := 994, slot := 5, price := ⟨⟨3, 0⟩, ⟨4, 0⟩⟩, ref := none }] = .error .range := by rfl
+/-- … and prices already set ⇒ rejected (the `cleared` precondition of `accepted_batch` is checked by the code) -/
+example : setPrices (10 ^ 20) { cleared := false } { now := 1000, maxAge := 60, maxRange := 5, maxFuture := 10 } [{ token := 1, enabled := true, expectedProvider := 2, provider := 2, feedMatches := true, allowAdjust := false, cfg := { found := true, adjustment := 1, devFactor := some (10 ^ 18) }, oracleTs := 990, slot := 7, price := ⟨⟨995, 2⟩, ⟨1005, 2⟩⟩, ref := some ⟨1000, 2⟩ }] = .error .pricesSet := by rfl
+
+/-- `cleared_after_use` on that batch: the wrapped operation saw the two prices, the oracle left behind is empty -/
+example : (withPrices (10 ^ 20) {} { now := 1000, maxAge := 60, maxRange := 5, maxFuture := 10 } [{ token := 1, enabled := true, expectedProvider := 2, provider := 2, feedMatches := true, allowAdjust := false, cfg := { found := true, adjustment := 1, devFactor := some (10 ^ 18) }, oracleTs := 990, slot := 7, price := ⟨⟨995, 2⟩, ⟨1005, 2⟩⟩, ref := some ⟨1000, 2⟩ }, { token := 2, enabled := true, expectedProvider := 3, provider := 3, feedMatches := true, allowAdjust := true, cfg := { found := true, adjustment := 0, devFactor := none }, oracleTs := 994, slot := 5, price := ⟨⟨3, 0⟩, ⟨4, 0⟩⟩, ref := none }] true).1.toOption.map (fun r => r.2.prices.length) = some 2 ∧
+    (withPrices (10 ^ 20) {} { now := 1000, maxAge := 60, maxRange := 5, maxFuture := 10 } [{ token := 1, enabled := true, expectedProvider := 2, provider := 2, feedMatches := true, allowAdjust := false, cfg := { found := true, adjustment := 1, devFactor := some (10 ^ 18) }, oracleTs := 990, slot := 7, price := ⟨⟨995, 2⟩, ⟨1005, 2⟩⟩, ref := some ⟨1000, 2⟩ }, { token := 2, enabled := true, expectedProvider := 3, provider := 3, feedMatches := true, allowAdjust := true, cfg := { found := true, adjustment := 0, devFactor := none }, oracleTs := 994, slot := 5, price := ⟨⟨3, 0⟩, ⟨4, 0⟩⟩, ref := none }] true).2 = {} := ⟨by rfl, (cleared_after_use _ _ _ _ _).1⟩
+
+/-- AUDIT (strength): `setLoop_range` only carries the RANGE facts through the loop; this carries everything `setOne_ok`
+and `accepted_fresh` establish for EVERY feed of an accepted batch, relative to the validator the batch started with
+(the loop never changes `now`, `maxAge`, `maxFuture`) -/
+theorem setLoop_each_accepted {U : Nat} : ∀ (feeds : List Feed) (o o' : Oracle) (v v' : Validator),
+    setLoop U (o, v) feeds = .ok (o', v') →
+    ∀ fd ∈ feeds, fd.enabled = true ∧ fd.expectedProvider = fd.provider ∧ fd.feedMatches = true ∧ fd.cfg.found = true ∧
+      fromPriceOk (maybeAdjust U fd) = true ∧
+      v.now ≤ fd.oracleTs - fd.cfg.adjustment + v.maxAge ∧ fd.oracleTs ≤ v.now + v.maxFuture
+  | [], _, _, _, _, _ => by intro fd hfd; cases hfd
+  | fd :: rest, o, o', v, v', h => by
+    simp only [setLoop] at h
+    cases hs : setOne U (o, v) fd with
+    | error e => simp [hs] at h
+    | ok ov =>
+      obtain ⟨o1, v1⟩ := ov
+      simp only [hs] at h
+      obtain ⟨e1, e2, e3, hv, e5, _⟩ := setOne_ok hs
+      obtain ⟨f1, f2, f3, rfl⟩ := accepted_fresh hv
+      have ih := setLoop_each_accepted rest o1 o' _ v' h
+      intro x hx
+      rcases List.mem_cons.1 hx with rfl | hx
+      · exact ⟨e1, e2, e3, f1, e5, f2, f3⟩
+      · exact ih x hx
+
+/-- AUDIT (strength): the docstring of `accepted_batch` promises freshness, provider and feed match "by `accepted_fresh`
+/ `setOne_ok`" but its statement only has well-formedness and the range; this is the missing batch-level clause:
+after a successful `set_prices_from_remaining_accounts` EVERY token of the batch was enabled, came from its expected
+provider and feed, is no older than `max_age` after its timestamp adjustment and not further than `max_future` ahead -/
+theorem accepted_batch_each_fresh {U : Nat} {o o' : Oracle} {v : Validator} {feeds : List Feed}
+    (h : setPrices U o v feeds = .ok o') :
+    o.cleared = true ∧ o.prices = [] ∧ feeds.length ≤ 512 ∧
+    ∀ fd ∈ feeds, fd.enabled = true ∧ fd.expectedProvider = fd.provider ∧ fd.feedMatches = true ∧ fd.cfg.found = true ∧
+      fromPriceOk (maybeAdjust U fd) = true ∧
+      v.now ≤ fd.oracleTs - fd.cfg.adjustment + v.maxAge ∧ fd.oracleTs ≤ v.now + v.maxFuture := by
+  unfold setPrices at h
+  by_cases hc : o.cleared = true
+  · simp only [hc, Bool.not_true, Bool.false_eq_true, if_false] at h
+    by_cases he : o.prices.isEmpty = true
+    · simp only [he, Bool.not_true, Bool.false_eq_true, if_false] at h
+      by_cases hl : feeds.length > 512
+      · simp [hl] at h
+      · simp only [hl, if_false] at h
+        cases hs : setLoop U (o, v) feeds with
+        | error e => simp [hs] at h
+        | ok ov =>
+          obtain ⟨o1, v1⟩ := ov
+          exact ⟨hc, List.isEmpty_iff.1 he, by omega, setLoop_each_accepted feeds o o1 v v1 hs⟩
+    · simp [he] at h
+  · simp [hc] at h
+
+/-- instantiated on the two-token batch: token 1's adjusted timestamp 989 is within max age 60 of now = 1000 -/
+example : (1000 : Int) ≤ 990 - (1 : Nat) + (60 : Nat) ∧ (990 : Int) ≤ 1000 + (10 : Nat) :=
+  ((accepted_batch_each_fresh (U := 10 ^ 20) (o := {}) (v := { now := 1000, maxAge := 60, maxRange := 5, maxFuture := 10 }) (feeds := [{ token := 1, enabled := true, expectedProvider := 2, provider := 2, feedMatches := true, allowAdjust := false, cfg := { found := true, adjustment := 1, devFactor := some (10 ^ 18) }, oracleTs := 990, slot := 7, price := ⟨⟨995, 2⟩, ⟨1005, 2⟩⟩, ref := some ⟨1000, 2⟩ }, { token := 2, enabled := true, expectedProvider := 3, provider := 3, feedMatches := true, allowAdjust := true, cfg := { found := true, adjustment := 0, devFactor := none }, oracleTs := 994, slot := 5, price := ⟨⟨3, 0⟩, ⟨4, 0⟩⟩, ref := none }])
+      (o' := { minTs := 989, maxTs := 994, minSlot := 5, cleared := false,
+               prices := [(2, ⟨⟨3, 0⟩, ⟨4, 0⟩⟩), (1, ⟨⟨995, 2⟩, ⟨1005, 2⟩⟩)] }) (by rfl)).2.2.2
+    { token := 1, enabled := true, expectedProvider := 2, provider := 2, feedMatches := true, allowAdjust := false, cfg := { found := true, adjustment := 1, devFactor := some (10 ^ 18) }, oracleTs := 990, slot := 7, price := ⟨⟨995, 2⟩, ⟨1005, 2⟩⟩, ref := some ⟨1000, 2⟩ } (List.mem_cons_self)).2.2.2.2.2
+
+/-- `accepted_batch` instantiated on the same batch: the two adjusted timestamps are at most `maxRange = 5` apart -/
+example : ((994 : Int) - (0 : Nat)) - (990 - (1 : Nat)) ≤ (5 : Nat) :=
+  (accepted_batch (U := 10 ^ 20) (o := {}) (v := { now := 1000, maxAge := 60, maxRange := 5, maxFuture := 10 }) (feeds := [{ token := 1, enabled := true, expectedProvider := 2, provider := 2, feedMatches := true, allowAdjust := false, cfg := { found := true, adjustment := 1, devFactor := some (10 ^ 18) }, oracleTs := 990, slot := 7, price := ⟨⟨995, 2⟩, ⟨1005, 2⟩⟩, ref := some ⟨1000, 2⟩ }, { token := 2, enabled := true, expectedProvider := 3, provider := 3, feedMatches := true, allowAdjust := true, cfg := { found := true, adjustment := 0, devFactor := none }, oracleTs := 994, slot := 5, price := ⟨⟨3, 0⟩, ⟨4, 0⟩⟩, ref := none }])
+      (o' := { minTs := 989, maxTs := 994, minSlot := 5, cleared := false,
+               prices := [(2, ⟨⟨3, 0⟩, ⟨4, 0⟩⟩), (1, ⟨⟨995, 2⟩, ⟨1005, 2⟩⟩)] }) (by rfl)).2
+    { token := 2, enabled := true, expectedProvider := 3, provider := 3, feedMatches := true, allowAdjust := true, cfg := { found := true, adjustment := 0, devFactor := none }, oracleTs := 994, slot := 5, price := ⟨⟨3, 0⟩, ⟨4, 0⟩⟩, ref := none } (List.mem_cons_of_mem _ List.mem_cons_self) { token := 1, enabled := true, expectedProvider := 2, provider := 2, feedMatches := true, allowAdjust := false, cfg := { found := true, adjustment := 1, devFactor := some (10 ^ 18) }, oracleTs := 990, slot := 7, price := ⟨⟨995, 2⟩, ⟨1005, 2⟩⟩, ref := some ⟨1000, 2⟩ } List.mem_cons_self
+
+
 end Gmx.C24
